@@ -601,6 +601,50 @@ def r9_chr_code_is_a_byte(ctx, rule="C17.R9"):
     ctx.require(rule, 1)
 
 
+def r10_str_writes_what_val_reads(ctx, rule="C17.R10"):
+    """`VAL(STR$(k)) = k for every whole number k`: VAL reads an optional sign, digits and a decimal point and stops
+    at anything else.  STR$ therefore writes numbers in that alphabet only: it formats with the plain Display of
+    the number (no exponent formatter - `{:E}` / `{:e}` - whose output VAL reads up to the letter), and the
+    literal text and character constants it adds contain nothing but blanks, signs, digits and the point."""
+    prog = ctx.prog
+    from . import c02
+    fns = _builtin_fns(prog, "str_fn")
+    if not fns:
+        raise CheckError("%s: built-in str_fn not found" % rule)
+    allowed = set(" +-.0123456789")
+    bad = []
+    n_fmt = 0
+    for f in fns:
+        pv = mir.Prov(f.body)
+        for _b, t in f.body.calls():
+            cp = t.get("cpath") or ""
+            last = cp.split("::")[-1]
+            if "fmt::rt::Argument" in cp:
+                n_fmt += 1
+                if last not in ("new_display", "new"):
+                    bad.append("the formatter %s (line %s)" % (last, t.get("ln")))
+            if cp.startswith("std::fmt::Arguments") and cp.endswith("::new") and t["args"]:
+                o = mir.strip_refs(pv.of_operand(t["args"][0]))
+                if o[0] == "const":
+                    items = c02.parse_fmt_template(o[1]) or []
+                    for it in items:
+                        if it[0] == "lit" and set(it[1]) - allowed:
+                            bad.append("the literal text %r (line %s)" % (it[1], t.get("ln")))
+                        if it[0] == "arg" and it[1] != 0xc0:
+                            bad.append("a placeholder with a format specification (line %s)" % t.get("ln"))
+            for a in t["args"]:
+                k = a.get("k") or {}
+                if k.get("ty") == "char" and "int" in k and chr(k["int"]) not in allowed:
+                    bad.append("the character %r (line %s)" % (chr(k["int"]), t.get("ln")))
+    if not n_fmt:
+        raise CheckError("%s: STR$ formats nothing (the detector is blind)" % rule)
+    ctx.decide(not bad, rule, rule + ":STR$", fns[0].loc,
+               "%d formatter arguments, all plain Display; literal text within the alphabet of VAL" % n_fmt,
+               "STR$ writes something VAL does not read - %s: VAL stops at the first character that is not a sign, a digit "
+               "or the point, so VAL(STR$(k)) is only the part in front of it (1 for 1E+07)" % "; ".join(sorted(set(bad))[:4]))
+    ctx.require(rule, 1)
+
+
 def run(ctx):
     common.install(ctx)
     r1_accessors(ctx)
@@ -614,3 +658,4 @@ def run(ctx):
     c12.r16_numeric_types_are_interchangeable_at_run_time(ctx, "C17.R7")
     r8_trims_remove_blanks_only(ctx)
     r9_chr_code_is_a_byte(ctx)
+    r10_str_writes_what_val_reads(ctx)
